@@ -63,21 +63,35 @@ func (r *Rng) Pick(ws ...int) int {
 // ---------------------------------------------------------------- oracle co-process
 
 type Oracle struct {
-	cmd *exec.Cmd
-	in  io.WriteCloser
-	out *bufio.Reader
-	n   int
+	path string
+	cmd  *exec.Cmd
+	in   io.WriteCloser
+	out  *bufio.Reader
+	n    int
 }
 
-func StartOracle(path string) *Oracle {
-	cmd := exec.Command(path)
+// oracleTimeout is raised (as a panic) when the Lean oracle does not answer within the per-query
+// limit: the exact-rational region judge is polynomial but can take minutes on the largest
+// thorough-tier cases.  The case is then counted as skipped (inconclusive), never as a pass of a
+// particular sample nor as a violation; the oracle process is restarted.
+type oracleTimeout struct{ line string }
+
+var oracleLimit = 20 * time.Second
+
+func (o *Oracle) start() {
+	cmd := exec.Command(o.path)
 	in, _ := cmd.StdinPipe()
 	outp, _ := cmd.StdoutPipe()
 	cmd.Stderr = os.Stderr
 	if err := cmd.Start(); err != nil {
-		fatal("cannot start oracle %s: %v", path, err)
+		fatal("cannot start oracle %s: %v", o.path, err)
 	}
-	o := &Oracle{cmd: cmd, in: in, out: bufio.NewReaderSize(outp, 1<<20)}
+	o.cmd, o.in, o.out = cmd, in, bufio.NewReaderSize(outp, 1<<20)
+}
+
+func StartOracle(path string) *Oracle {
+	o := &Oracle{path: path}
+	o.start()
 	if o.Ask("ping") != "pong" {
 		fatal("oracle handshake failed")
 	}
@@ -88,11 +102,28 @@ func (o *Oracle) Ask(line string) string {
 	if _, err := io.WriteString(o.in, line+"\n"); err != nil {
 		fatal("oracle write: %v", err)
 	}
-	resp, err := o.out.ReadString('\n')
-	if err != nil {
-		fatal("oracle died on line %q: %v", trunc(line, 300), err)
+	type ans struct {
+		s   string
+		err error
 	}
-	return strings.TrimRight(resp, "\n")
+	ch := make(chan ans, 1)
+	rd := o.out
+	go func() {
+		resp, err := rd.ReadString('\n')
+		ch <- ans{resp, err}
+	}()
+	select {
+	case a := <-ch:
+		if a.err != nil {
+			fatal("oracle died on line %q: %v", trunc(line, 300), a.err)
+		}
+		return strings.TrimRight(a.s, "\n")
+	case <-time.After(oracleLimit):
+		o.cmd.Process.Kill()
+		o.cmd.Wait()
+		o.start()
+		panic(oracleTimeout{trunc(line, 200)})
+	}
 }
 func (o *Oracle) Close() { o.in.Close(); o.cmd.Wait() }
 
@@ -263,6 +294,8 @@ type Ctx struct {
 	MOracle string
 	Workers int
 	Budget  float64 // multiplier on case counts (4 when a tie is broken)
+	MaxSec  float64 // wall-clock budget of one stage: no new case is started after it (0 = none)
+	Start   time.Time
 }
 
 // parallelFor runs fn(worker, i) for i in [0,n) on ctx.Workers goroutines, each with its own oracle.
@@ -294,10 +327,29 @@ func parallelFor(ctx *Ctx, n int, needOracle bool, col *Collector, fn func(o *Or
 				if i >= n || (col != nil && col.Full()) {
 					return
 				}
+				if ctx.MaxSec > 0 && time.Since(ctx.Start).Seconds() > ctx.MaxSec {
+					if col != nil {
+						col.AddN("cases_not_started_time_budget", 1)
+					}
+					return
+				}
 				if os.Getenv("VERIF_TRACE_CASES") != "" {
 					fmt.Fprintf(os.Stderr, "case %d\n", i)
 				}
-				fn(o, i)
+				func() {
+					defer func() {
+						if r := recover(); r != nil {
+							if _, ok := r.(oracleTimeout); ok {
+								if col != nil {
+									col.AddN("oracle_timeouts_skipped_cases", 1)
+								}
+								return
+							}
+							panic(r)
+						}
+					}()
+					fn(o, i)
+				}()
 			}
 		}()
 	}
